@@ -129,6 +129,7 @@ def bootstrap(threads=None):
     with contextlib.redirect_stdout(buf):
         import bempp_cl.api  # noqa: F401
     install_id_counter()
+    capture_pristine()
     scratch_dir()
     os.makedirs(REPLAYS, exist_ok=True)
     os.makedirs(EVIDENCE, exist_ok=True)
@@ -211,34 +212,132 @@ def new_params(vector):
     return p
 
 
+# ---- generic module-level state -------------------------------------------------------------------
+# Any module-level (or class-level) dict / list / set / scalar of a bempp_cl module is process-global
+# state a result might depend on -- including caches the harness has never heard of (a change to the
+# library may add one).  A run must start from the state a fresh interpreter has, and the fresh-process
+# emulation must not see the history's state, whatever it is.
+
+_SCALARS = (type(None), bool, int, float, complex, str, bytes)
+_SKIP_ATTRS = {"create_unique_id", "LOGGER", "TMP_PATH", "BEMPP_PATH", "GMSH_PATH"}
+
+
+def _bempp_modules():
+    return [(n, m) for n, m in sorted(sys.modules.items()) if m is not None and (n == "bempp_cl" or n.startswith("bempp_cl."))]
+
+
+def _state_items(owner_dict):
+    for name, val in list(owner_dict.items()):
+        if name.startswith("__") or name in _SKIP_ATTRS:
+            continue
+        if type(val) in (dict, list, set):
+            yield name, "c", val
+        elif isinstance(val, _SCALARS) or (type(val) is tuple and all(isinstance(x, _SCALARS) for x in val)):
+            yield name, "s", val
+
+
+def import_all_bempp_modules():
+    import importlib
+    import pkgutil
+
+    import bempp_cl
+
+    for m in pkgutil.walk_packages(bempp_cl.__path__, "bempp_cl."):
+        if m.name in sys.modules:
+            continue
+        if any(part in m.name for part in ("opencl", "fenics", "external", "remote_operator")):
+            continue
+        try:
+            importlib.import_module(m.name)
+        except Exception:  # noqa: BLE001
+            continue
+
+
+def capture_module_state():
+    """Snapshot of all module- and class-level containers and scalars of the bempp_cl package."""
+    import copy as _copy
+
+    state = {}
+    for mname, mod in _bempp_modules():
+        owners = [((mname, None), mod.__dict__, mod)]
+        for cname, cls in list(mod.__dict__.items()):
+            if isinstance(cls, type) and getattr(cls, "__module__", None) == mname:
+                owners.append(((mname, cname), cls.__dict__, cls))
+        for key, d, owner in owners:
+            names = {}
+            for name, kind, val in _state_items(d):
+                names[name] = (kind, val, _copy.copy(val) if kind == "c" else val)
+            state[key] = (owner, names)
+    return state
+
+
+def install_module_state(state):
+    """Put every captured container / scalar back (same objects, captured contents); drop newcomers."""
+    for mname, mod in _bempp_modules():
+        owners = [((mname, None), mod.__dict__, mod)]
+        for cname, cls in list(mod.__dict__.items()):
+            if isinstance(cls, type) and getattr(cls, "__module__", None) == mname:
+                owners.append(((mname, cname), cls.__dict__, cls))
+        for key, d, owner in owners:
+            if key not in state:
+                continue
+            _, names = state[key]
+            for name, kind, val in list(_state_items(d)):
+                if name not in names:
+                    try:
+                        delattr(owner, name)  # state that did not exist in the captured process
+                    except (AttributeError, TypeError):
+                        pass
+            for name, (kind, obj, saved) in names.items():
+                try:
+                    if kind == "c":
+                        if type(obj) is dict:
+                            obj.clear()
+                            obj.update(saved)
+                        elif type(obj) is list:
+                            obj[:] = saved
+                        else:
+                            obj.clear()
+                            obj.update(saved)
+                        if d.get(name) is not obj:
+                            setattr(owner, name, obj)
+                    else:
+                        if name not in d or d[name] is not obj and d[name] != obj or type(d.get(name)) is not type(obj):
+                            setattr(owner, name, obj)
+                except (AttributeError, TypeError):
+                    pass
+
+
+_PRISTINE = None
+
+
+def capture_pristine():
+    """Called once at bootstrap, before any workload touched the library."""
+    global _PRISTINE
+    import bempp_cl.api
+
+    import_all_bempp_modules()
+    write_params(bempp_cl.api.GLOBAL_PARAMETERS, DEFAULT_VECTOR)
+    bempp_cl.api.DEFAULT_DEVICE_INTERFACE = "numba"
+    _PRISTINE = capture_module_state()
+
+
 class GlobalState(object):
     """Snapshot of everything process-global the library consults."""
 
     def __init__(self):
         import bempp_cl.api
-        import bempp_cl.api.fmm.fmm_assembler as fa
-        import bempp_cl.api.fmm.exafmm as ex
 
         self.params = read_params(bempp_cl.api.GLOBAL_PARAMETERS)
-        self.fmm_cache = fa._FMM_CACHE
-        self.fmm_pot_cache = fa._FMM_POTENTIAL_CACHE
-        self.tmp_dir = ex.FMM_TMP_DIR
-        self.precision = bempp_cl.api.DEFAULT_PRECISION
-        self.device = bempp_cl.api.DEFAULT_DEVICE_INTERFACE
+        self.generic = capture_module_state()
         self.idn = ID_COUNTER.n
         self.idp = ID_COUNTER.prefix
 
     def restore(self):
         import bempp_cl.api
-        import bempp_cl.api.fmm.fmm_assembler as fa
-        import bempp_cl.api.fmm.exafmm as ex
 
+        install_module_state(self.generic)
         write_params(bempp_cl.api.GLOBAL_PARAMETERS, self.params)
-        fa._FMM_CACHE = self.fmm_cache
-        fa._FMM_POTENTIAL_CACHE = self.fmm_pot_cache
-        ex.FMM_TMP_DIR = self.tmp_dir
-        bempp_cl.api.DEFAULT_PRECISION = self.precision
-        bempp_cl.api.DEFAULT_DEVICE_INTERFACE = self.device
         ID_COUNTER.n = self.idn
         ID_COUNTER.prefix = self.idp
 
@@ -246,15 +345,11 @@ class GlobalState(object):
 def reset_process_state(prefix="id"):
     """Put the library's process-global state into what a fresh interpreter has."""
     import bempp_cl.api
-    import bempp_cl.api.fmm.fmm_assembler as fa
-    import bempp_cl.api.fmm.exafmm as ex
 
+    if _PRISTINE is None:
+        capture_pristine()
+    install_module_state(_PRISTINE)
     write_params(bempp_cl.api.GLOBAL_PARAMETERS, DEFAULT_VECTOR)
-    fa._FMM_CACHE = {}
-    fa._FMM_POTENTIAL_CACHE = {}
-    ex.FMM_TMP_DIR = None
-    bempp_cl.api.DEFAULT_PRECISION = "double"
-    bempp_cl.api.DEFAULT_DEVICE_INTERFACE = "numba"
     ID_COUNTER.reset(prefix)
     clean_scratch()
     try:
@@ -274,20 +369,18 @@ class fresh_process(object):
 
     def __enter__(self):
         import bempp_cl.api
-        import bempp_cl.api.fmm.fmm_assembler as fa
-        import bempp_cl.api.fmm.exafmm as ex
         import exafmm
 
+        if _PRISTINE is None:
+            raise RuntimeError("capture_pristine() was not called")
         self.snap = GlobalState()
         c = exafmm.CONTROL
         self.peer = (dict(c.fail_on), dict(c.count), c.permute_seed, c.chunk, c.faults_fired)
         c.fail_on = {}
         c.permute_seed = None
         c.chunk = 256
+        install_module_state(_PRISTINE)
         write_params(bempp_cl.api.GLOBAL_PARAMETERS, self.vector)
-        fa._FMM_CACHE = {}
-        fa._FMM_POTENTIAL_CACHE = {}
-        ex.FMM_TMP_DIR = None
         ID_COUNTER.prefix = "fresh%d" % ID_COUNTER.n
         self.cwd = os.getcwd()
         sub = os.path.join(scratch_dir(), "fresh")
